@@ -740,6 +740,18 @@ func Run(o Options) report.Run {
 		}
 	}
 	sim.Detach()
+	// the run directory has a random name: keep it out of everything that is reported
+	scrub := func(x string) string { return strings.ReplaceAll(x, dir, "$RUN") }
+	out.Desc = scrub(out.Desc)
+	for i := range out.Sample {
+		out.Sample[i] = scrub(out.Sample[i])
+	}
+	for i := range out.Findings {
+		out.Findings[i].Detail = scrub(out.Findings[i].Detail)
+	}
+	for i := range out.Notes {
+		out.Notes[i].Detail = scrub(out.Notes[i].Detail)
+	}
 	return out
 }
 
